@@ -129,6 +129,9 @@ def probe(u, key):
         if kind == "gbase":
             f, un = u.get_base_units(x)
             return ("ok", F(f), frozenset((k, F(v)) for k, v in (1 * un).unit_items()))
+        if kind == "sbase":
+            f, un = u.get_base_units(x, system=y)
+            return ("ok", F(f), frozenset((k, F(v)) for k, v in (1 * un).unit_items()))
         if kind == "root":
             f, un = u.get_root_units(x)
             return ("ok", F(f), frozenset((k, F(v)) for k, v in (1 * un).unit_items()))
@@ -148,7 +151,7 @@ def allowed(key, answers):
     for a in answers:
         if key[0] == "conv":
             out.add(("ok", fr(a[1])) if a[0] == "ok" else (a[0],))
-        elif key[0] in ("base", "gbase", "root"):
+        elif key[0] in ("base", "gbase", "sbase", "root"):
             out.add(("ok", fr(a[1]), frozenset((n, fr(e)) for n, e in a[2])) if a[0] == "ok" else (a[0],))
         else:
             out.add(frozenset(a))
@@ -274,7 +277,7 @@ def classify(hist, k, key):
     define_inside_overlay = any(any(a["ctx"] in redef_ctx for a in (hist[i - 1]["stack"] if i > 0 else [])) for i in define_idx)
     key = key or (None, None)
     return {"after_failed_activation": failed_before, "after_define": bool(define_idx), "define_inside_overlay": define_inside_overlay,
-            "probe": key[0], "probe_unit": key[1] if key[0] in ("compat", "base", "gbase") or key[1] == "new1" else None}
+            "probe": key[0], "probe_unit": key[1] if key[0] in ("compat", "base", "gbase", "sbase") or key[1] == "new1" else None}
 
 
 # ---------------------------------------------------------------------------------------------- code -> spec traces
@@ -285,7 +288,7 @@ def enc_answer(key, got):
         return ["set", ["<" + got[0] + ">"]]
     if got[0] == "ok":
         out = ["ok", [got[1].numerator, got[1].denominator]]
-        if key[0] in ("base", "gbase", "root"):
+        if key[0] in ("base", "gbase", "sbase", "root"):
             out.append(sorted([n, [e.numerator, e.denominator]] for n, e in got[2]))
         return out
     return [got[0]]
